@@ -32,6 +32,14 @@ def ss_params(b):
     return out
 
 
+def _is_ss(a, ssp):
+    """Is the argument the substitution-set parameter itself (through `&`, `*`, `Rc::clone`)?"""
+    a = strip(a)
+    while isinstance(a, tuple) and a and a[0] == "call" and len(a[2]) == 1 and a[1].split("::")[-1] in ("clone", "deref", "as_ref", "borrow"):
+        a = strip(a[2][0])
+    return a in ssp
+
+
 def walkers(prog):
     """Free functions that take a substitution set and have a loop which moves along `next` links of list nodes and
     looks at their terms (directly or through a private helper called inside the loop)."""
@@ -91,8 +99,7 @@ def follows_tail(prog, b, max_visits=3):
                     look = "done"
             if e["k"] == "call" and node is not None and look is None and e["callee"] in crate and not e.get("inlined"):
                 args = [strip(a) for a in e["args"]]
-                has_ss = any(a in ssp or (a[0] == "call" and a[1].endswith("::clone") and strip(a[2][0]) in ssp) or
-                             mentions(a, lambda y: y in ssp) for a in args)
+                has_ss = any(_is_ss(a, ssp) for a in args)
                 has_term = any(mentions(a, lambda y: y[0] == "field" and y[2] == LIST + ".term" and strip(y[1]) == node) or
                                (a[0] == "field" and a[2] == LIST + ".term" and strip(a[1]) == node) for a in args)
                 if has_ss and has_term:
@@ -109,7 +116,61 @@ def follows_tail(prog, b, max_visits=3):
                                                      mentions(t[1], lambda y: y == look)):
                     n += 1
                     break
+    skipped = _flag_without_lookup(ps, ssp, crate)
+    if n and skipped:
+        return False, ("on some path a node whose tail-variable flag is set (line %d) is taken for an element without its variable being "
+                       "looked up: the walk does not continue through every bound tail variable" % skipped), len(ps)
     if n:
         return True, "", len(ps)
     return False, ("the walk reads the tail-variable flag but never goes on into the list the variable is bound to" if flag_read else
                    "the walk never reads the tail-variable flag of a node: `[a | $T]` is walked like `[a, $T]`"), len(ps)
+
+
+def _flag_without_lookup(ps, ssp, crate):
+    """Line of a branch that takes a node's tail flag as set after which, on that path, the walk consumes or leaves the
+    node without either looking its term up with the substitution set or testing the term itself (`$_`, not a variable)."""
+    for p in ps:
+        pending = None
+        for e in p.events:
+            if e["k"] == "branch":
+                c = strip(e["cond"])
+                hit = []
+                mentions(c, lambda t: hit.append(t) or False if (t[0] == "field" and t[2] == LIST + ".tail_var") else False)
+                if c[0] == "field" and c[2] == LIST + ".tail_var":
+                    hit.append(c)
+                if hit:
+                    if pending is not None:
+                        return pending[1]
+                    truth = e["value"] is True if not (c[0] == "unop" and c[1] == "Not") else e["value"] is False
+                    if truth:
+                        pending = (strip(hit[0][1]), e["line"])
+                    continue
+                if pending is not None:
+                    node = pending[0]
+                    def is_term(t):
+                        t = strip(t)
+                        return isinstance(t, tuple) and t and t[0] == "field" and t[2] == LIST + ".term" and strip(t[1]) == node
+                    v = e["value"]
+                    cc = c
+                    if cc[0] == "unop" and cc[1] == "Not" and isinstance(v, bool):
+                        cc, v = strip(cc[2]), not v
+                    if cc[0] == "call" and (cc[1].endswith("::eq") or cc[1].endswith("::ne")) and len(cc[2]) == 2 and isinstance(v, bool):
+                        ops = [strip(a) for a in cc[2]]
+                        anon = any(a[0] == "agg" and a[2] == "Anonymous" for a in ops)
+                        if anon and any(is_term(a) for a in ops) and (v is True) == cc[1].endswith("::eq"):
+                            pending = None       # the tail is the anonymous variable: nothing to look up
+                    elif cc[0] == "variant" and is_term(cc[1]):
+                        vals = v if isinstance(v, tuple) else (v,)
+                        if "LogicVar" not in vals:
+                            pending = None       # not a variable at all
+            elif e["k"] == "call" and pending is not None and not e.get("inlined"):
+                node = pending[0]
+                args = [strip(a) for a in e["args"]]
+                has_term = any(mentions(a, lambda y: y[0] == "field" and y[2] == LIST + ".term" and strip(y[1]) == node) or
+                               (a[0] == "field" and a[2] == LIST + ".term" and strip(a[1]) == node) for a in args if isinstance(a, tuple) and a)
+                if has_term and e["callee"] in crate and any(_is_ss(a, ssp) for a in args if isinstance(a, tuple) and a):
+                    pending = None
+                elif has_term and (e["callee"].endswith("::push") or e["callee"].endswith("::eq") or e["callee"].endswith("::ne")):
+                    if e["callee"].endswith("::push"):
+                        return pending[1]
+    return 0
